@@ -262,6 +262,12 @@ def execute(plan):
                         alto_text(target)
                     except Exception:
                         pass
+                    # the text a consumer starts from is the text of the saved PAGE XML (a line that cannot
+                    # be decoded keeps it), not whatever the earlier decoding of the other logits produced
+                    saved_text = {ln.id: ln.transcription for ln in originals[pg].lines_iterator()}
+                    for ln in target.lines_iterator():
+                        ln.transcription = saved_text.get(ln.id, ln.transcription)
+                        ln.transcription_confidence = None
                     res.probe('load_over_already_densified_layout')
                 elif into == 'fresh_copy':
                     target = content.build_layout(spec, chars)
